@@ -60,6 +60,7 @@ struct Pass {
     /// search stays below this many states (a deterministic function of the transition system).
     budget: u64,
     max_wall: f64,
+    persist: Persist,
 }
 
 const PLAIN: Opts = Opts { differential: false, probe: false, persist: Persist::Off, probe_every_height: false };
@@ -68,26 +69,33 @@ fn env_usize(name: &str) -> Option<usize> {
     std::env::var(name).ok().and_then(|s| s.parse().ok())
 }
 
+/// The largest depth (in events) <= depth_max whose complete breadth-first search from `inits` has
+/// fewer than `budget` states.
+fn budget_depth(dag: Dag, profile: u8, inits: &[u8], depth_max: usize, budget: u64) -> usize {
+    let counting = Model::new(dag, profile, inits.to_vec(), PLAIN, None);
+    let (cs, _) = bfs(&counting, vec![St::Root], &Limits { max_depth: depth_max + 1, max_states: budget, max_wall_s: 1e9 }, 1);
+    // `per_depth` has one entry per depth at which a state was taken off the queue (root = 0).
+    // Root is depth 0 and the initial states depth 1, so a total depth t is t - 1 events. If the
+    // budget stopped the search on the FIRST state taken at depth t, the states of depth <= t
+    // already reach the budget and the complete depth within budget is t - 1.
+    if cs.capped.is_some() {
+        let t = cs.per_depth.len().saturating_sub(1);
+        let t = if cs.per_depth.get(t).copied() == Some(1) { t.saturating_sub(1) } else { t };
+        t.saturating_sub(1)
+    } else {
+        depth_max
+    }
+}
+
 fn explore_pass(dag: Dag, profile: u8, p: &Pass, opts: Opts) -> PassResult {
     let t0 = std::time::Instant::now();
     // Depth selection (iterated bounds): a cheap counting search without oracles finds the largest
     // depth whose complete search fits the state budget. When the counting search stops on the
     // budget while expanding depth k, every state of depth <= k has been discovered and there are
     // fewer than `budget` of them.
-    let counting = Model::new(dag, profile, p.inits.clone(), PLAIN, None);
-    let (cs, _) = bfs(&counting, vec![St::Root], &Limits { max_depth: p.depth_max + 1, max_states: p.budget, max_wall_s: 1e9 }, 1);
-    // `per_depth` has one entry per depth at which a state was taken off the queue (root = 0).
-    // Root is depth 0 and the initial states depth 1, so a total depth t is t - 1 events. If the
-    // budget stopped the search on the FIRST state taken at depth t, the states of depth <= t
-    // already reach the budget and the complete depth within budget is t - 1.
-    let depth = if cs.capped.is_some() {
-        let t = cs.per_depth.len().saturating_sub(1);
-        let t = if cs.per_depth.get(t).copied() == Some(1) { t.saturating_sub(1) } else { t };
-        t.saturating_sub(1)
-    } else {
-        p.depth_max
-    };
+    let depth = budget_depth(dag, profile, &p.inits, p.depth_max, p.budget);
     let seen = RefCell::new(HashSet::new());
+    let opts = Opts { persist: p.persist, ..opts };
     let m = Model::new(dag, profile, p.inits.clone(), opts, Some(&seen));
     // +1: the first event of every history is the choice of the initial state. The caps below are
     // safety nets only (the counting search has established the size).
@@ -127,7 +135,7 @@ fn replay_history(case: &Value) -> Result<(), String> {
     let dag: Dag = serde_json::from_value(case["dag"].clone()).map_err(|e| format!("bad case: {e}"))?;
     let profile = case["profile"].as_u64().ok_or("bad case: profile")? as u8;
     let history: Vec<Op> = serde_json::from_value(case["history"].clone()).map_err(|e| format!("bad case: {e}"))?;
-    let opts = Opts { differential: true, probe: true, persist: Persist::Full, probe_every_height: case["probe_every_height"].as_bool().unwrap_or(true) };
+    let opts = Opts { differential: true, probe: true, persist: Persist::FullTo(u8::MAX), probe_every_height: case["probe_every_height"].as_bool().unwrap_or(true) };
     let m = Model::new(dag, profile, vec![], opts, None);
     let mut s = St::Root;
     for (n, op) in history.iter().enumerate() {
@@ -194,16 +202,20 @@ pub fn run(args: &Args) -> i32 {
     let broad_depth = env_usize("C18_BROAD").unwrap_or(args.tier.pick(3, 5));
     let budget = env_usize("C18_BUDGET").map(|x| x as u64).unwrap_or(args.tier.pick(50_000, 800_000));
     let max_wall = env_usize("C18_MAX_WALL").map(|x| x as f64).unwrap_or(args.tier.pick(45.0, 480.0));
-    let passes = vec![
-        Pass { name: "deep", inits: DEEP_INITS.to_vec(), depth_max: deep_depth, budget, max_wall },
-        Pass { name: "broad", inits: (0..125u8).collect(), depth_max: broad_depth, budget, max_wall },
-    ];
-    let persist_mode = match std::env::var("C18_PERSIST").ok().as_deref() {
-        Some("off") => Persist::Off,
-        Some("full") => Persist::Full,
-        Some("class") => Persist::ShapeClass,
-        _ => args.tier.pick(Persist::ShapeClass, Persist::Full),
+    // Explored-state persistence: quick saves one representative per shape class; thorough saves
+    // every distinct MigrationState reached within the stated number of events (the size of the
+    // quick-tier space) and one representative per shape class beyond.
+    let (persist_deep, persist_broad) = match std::env::var("C18_PERSIST").ok().as_deref() {
+        Some("off") => (Persist::Off, Persist::Off),
+        Some("full") => (Persist::FullTo(u8::MAX), Persist::FullTo(u8::MAX)),
+        Some("class") => (Persist::ShapeClass, Persist::ShapeClass),
+        _ => args.tier.pick((Persist::ShapeClass, Persist::ShapeClass), (Persist::FullTo(6), Persist::FullTo(2))),
     };
+    let passes = vec![
+        Pass { name: "deep", inits: DEEP_INITS.to_vec(), depth_max: deep_depth, budget, max_wall, persist: persist_deep },
+        Pass { name: "broad", inits: (0..125u8).collect(), depth_max: broad_depth, budget, max_wall, persist: persist_broad },
+    ];
+    let persist_mode = persist_deep;
     let opts = Opts { differential: true, probe: true, persist: persist_mode, probe_every_height: !quick };
     let groups: Vec<(Dag, u8)> = dags.iter().flat_map(|d| profiles.iter().map(move |p| (*d, *p))).collect();
     let tasks: Vec<(Dag, u8, Pass)> = groups.iter().flat_map(|(d, p)| passes.iter().map(move |ps| (*d, *p, ps.clone()))).collect();
@@ -256,10 +268,22 @@ pub fn run(args: &Args) -> i32 {
             "advance_migration_calls_on_mockbackend": mock_calls,
             "liveness_probes": probes,
             "sqlite_roundtrips_of_explored_states": persists,
-            "explored_state_persistence": format!("{persist_mode:?}"),
+            "explored_state_persistence": {"deep": format!("{persist_deep:?}"), "broad": format!("{persist_broad:?}")},
             "terminal_follow_events": model::TERM_FOLLOW,
             "heights": {"initial_tip": model::T0, "anchor_grid": model::INTERVAL, "tip_max": model::TIP_MAX, "rollback_floor": model::FLOOR,
                         "profiles": PROFILES.iter().map(|p| json!({"name": p.name, "scheduled": p.sched, "expiry": p.expiry, "transfer_anchor_boundary": p.boundary})).collect::<Vec<_>>()},
+            "alphabet_rationale": [
+                "scheduled 22/24/26 against tips 20..33 in +1 steps and jumps: both sides of `scheduled_height <= effective` (next_broadcastable, prove_ready)",
+                "lead 0/2: scanned vs effective targets differ; with expiry 24 the doomed window `scanned <= expiry < effective` is entered and left",
+                "expiry 0 and scheduled+2/+4: `expiry != 0` and both sides of `expiry < target` (tip = expiry gives target = expiry + 1)",
+                "transfer anchor boundary 8 / 12 with PROVABLE_ANCHOR_DEPTH 10: both sides of `boundary + 10 < scanned` (12 settles only at scanned target 23)",
+                "anchor grid 4 => transfer-delay mean 1 => overdue tolerance 1: one block late is served, two blocks late shifts the schedule and redraws boundaries (ages 1 and 2)",
+                "crossing shares 20/30/50 and 20/80 against the 20% replan threshold: equality (no early replan) and above (early replan) of `100*unsat > percent*total`",
+                "BroadcastFail(tip) / (tip+2): both sides of `as_of_height < reported_tip` (adjudicated at once / held at Reevaluate until scanned)",
+                "Rollback to tip-1, tip-2 and mined-1: a transaction mined exactly at the height stays mined, one above is un-mined; marks and reports on either side of the height",
+                "every StepSatisfiability variant and every UnsatisfiableCause as oracle answer; in-flight rows get the two causes the sweep acts on",
+                "initial states: all 5^3 per-transaction lifecycle combinations, mined heights 17/18/19 below the initial tip"
+            ],
             "events": ["Advance{lead in {0,2}, oracle in {AllOk, NotYet(i), Spent(i), InputsInvalidated(i), AnchorInvalidated(i)}, anchor age in {1,2}, response}",
                        "responses: Prove => ProveAll | ProveFirst | Ignore; Broadcast => BroadcastOk | BroadcastOkNotRecorded | BroadcastFail(tip) | BroadcastFail(tip+2) | Ignore; Replan => Supersede | Ignore; others => Ignore",
                        "RecordLate(i)", "Mine(i)", "Tip{+1 | to next scheduled | past next expiry}", "Rollback(h in {tip-1, tip-2, mined-1})", "Cancel", "Supersede", "ApplySignature(i)"],
@@ -327,12 +351,13 @@ pub fn run(args: &Args) -> i32 {
 
     // ---------------------------------------------------------------- second engine
     if run.failure_count() == 0 {
-        let sr_depth = env_usize("C18_SR_DEPTH").unwrap_or(args.tier.pick(5, 7)).min(deep_depth);
+        let sr_budget = env_usize("C18_SR_BUDGET").map(|x| x as u64).unwrap_or(args.tier.pick(4_000, 30_000));
         let sr_groups: Vec<(Dag, u8)> = if quick { dags.iter().enumerate().map(|(i, d)| (*d, profiles[i % profiles.len()])).collect() } else { groups.clone() };
         let cmp: Vec<Value> = sr_groups
             .par_iter()
             .map(|(d, p)| {
                 let inits = DEEP_INITS.to_vec();
+                let sr_depth = budget_depth(*d, *p, &inits, deep_depth, sr_budget);
                 let m = Model::new(*d, *p, inits.clone(), PLAIN, None);
                 let (st, _) = bfs(&m, vec![St::Root], &Limits { max_depth: sr_depth + 1, max_states: u64::MAX, max_wall_s: 1e9 }, 1);
                 let c = sr::count(*d, *p, inits, sr_depth + 1);
